@@ -389,6 +389,13 @@ func init() {
 		for _, zc := range certZoo() {
 			check(zc.Cert, "zoo "+zc.File, map[string]interface{}{"file": zc.File, "der": hexs(zc.DER)})
 		}
+		// subject attribute values around every length limit, also padded with blanks (the error-level limits and their
+		// recommended companions)
+		for i, der := range subjLenCerts() {
+			if c, err := safeParseCert(der); err == nil {
+				check(c, fmt.Sprintf("subject length probe %d", i), map[string]interface{}{"der_prefix": hexs(der[:minInt(len(der), 400)])})
+			}
+		}
 		// signature-algorithm substitution: the same certificate as issued by CAs holding other kinds of key (RSA,
 		// ECDSA, DSA, EdDSA, unknown) - a dimension the duplicated rules must agree on as well
 		{
